@@ -57,7 +57,9 @@ func (n *N) render(typedefPrefix string) string {
 		b.WriteString(" key k;")
 	}
 	for _, p := range n.Props {
-		b.WriteString(" " + p)
+		// GFEAT: a feature of the module that defines the grouping (prefixed like its typedef when
+		// the text is written in another module)
+		b.WriteString(" " + strings.ReplaceAll(p, "GFEAT", typedefPrefix+"gfeat"))
 	}
 	for _, k := range n.Kids {
 		b.WriteString(" " + k.render(typedefPrefix))
@@ -99,10 +101,12 @@ func bodyMenu() map[string][]*N {
 		"leaf-list": {{Kind: "leaf-list", Name: "ll", Type: "string"}},
 		"typedef":   {lf("l", "T")},
 		"must":      {{Kind: "container", Name: "c", Props: []string{`must "l = 'x'" { error-message "em"; }`}, Kids: []*N{lf("l", "string")}}},
+		// if-feature written inside the grouping: it names a feature of the defining module
+		"iffeature": {{Kind: "container", Name: "c", Kids: []*N{lf("l", "string", "if-feature GFEAT;"), lf("m", "int8")}}, lf("top", "string", "if-feature GFEAT;")},
 	}
 }
 
-var bodyNames = []string{"leaf", "leaf-def", "container", "list", "choice", "leaf-list", "typedef", "must"}
+var bodyNames = []string{"leaf", "leaf-def", "container", "list", "choice", "leaf-list", "typedef", "must", "iffeature"}
 
 // Mod is one modification of the uses.
 type Mod struct {
@@ -187,6 +191,11 @@ func modTarget(m string, body []*N) (target, stmt string, ok bool) {
 }
 
 func build(s Structure) (r rendered, applicable bool) {
+	if s.Def == "submodule" && len(s.Body) > 0 && s.Body[0] == "iffeature" {
+		// the in-place variant would name a feature of the submodule from the module, which this
+		// compiler does not resolve (see C14): no in-place equivalent to compare with
+		return r, false
+	}
 	menu := bodyMenu()
 	var body []*N
 	for i, bn := range s.Body {
@@ -409,6 +418,9 @@ func build(s Structure) (r rendered, applicable bool) {
 		header += " include s;"
 	}
 	header += " feature feat; feature off;"
+	if s.Def != "submodule" {
+		header += " feature gfeat;" // (a submodule does not see its module's features: there it is defined in the submodule)
+	}
 	typedefInA := ""
 	if needsTypedef && s.Def != "import" && s.Def != "submodule" {
 		typedefInA = ""
@@ -445,16 +457,16 @@ func build(s Structure) (r rendered, applicable bool) {
 	}
 	switch s.Def {
 	case "import":
-		b := "module b { namespace \"urn:b\"; prefix b;" + gdef.String() + " }"
-		bInl := "module b { namespace \"urn:b\"; prefix b;"
+		b := "module b { namespace \"urn:b\"; prefix b; feature gfeat;" + gdef.String() + " }"
+		bInl := "module b { namespace \"urn:b\"; prefix b; feature gfeat;"
 		if needsTypedef {
 			bInl += " typedef t { type int8 { range \"1..5\"; } }"
 		}
 		bInl += " }"
 		r.uses["b"], r.inline["b"] = b, bInl
 	case "submodule":
-		sub := "submodule s { belongs-to a { prefix a; }" + gdef.String() + " }"
-		subInl := "submodule s { belongs-to a { prefix a; }"
+		sub := "submodule s { belongs-to a { prefix a; } feature gfeat;" + gdef.String() + " }"
+		subInl := "submodule s { belongs-to a { prefix a; } feature gfeat;"
 		if needsTypedef {
 			subInl += " typedef t { type int8 { range \"1..5\"; } }"
 		}
@@ -482,6 +494,16 @@ type rec struct {
 	S Structure `json:"structure"`
 }
 
+// featuresFor: 'feat' of the using module and 'gfeat' of the DEFINING module are enabled; for an
+// imported grouping a:gfeat stays disabled, so resolving the grouping's if-feature in the using
+// module changes the outcome.
+func featuresFor(s Structure) []string {
+	if s.Def == "import" {
+		return []string{"a:feat", "b:gfeat"}
+	}
+	return []string{"a:feat", "a:gfeat"}
+}
+
 func check(s Structure) (vs []engine.Violation, outcome string) {
 	r, ok := build(s)
 	if !ok {
@@ -490,7 +512,7 @@ func check(s Structure) (vs []engine.Violation, outcome string) {
 	mk := func(key, detail string) {
 		vs = append(vs, engine.Violation{Key: key, Witness: s.String(), Detail: detail + "\n--- uses variant: " + fmt.Sprint(r.uses) + "\n--- inline variant: " + fmt.Sprint(r.inline), Harness: "structure", Replay: engine.JSON(rec{s})})
 	}
-	opts := gen.Options{Features: []string{"a:feat"}}
+	opts := gen.Options{Features: featuresFor(s)}
 	ru := gen.Compile(r.uses, opts)
 	ri := gen.Compile(r.inline, opts)
 	cls := fmt.Sprintf("site=%s:def=%s:mods=%v", s.Site, s.Def, s.Mods)
@@ -638,7 +660,7 @@ func checkPair(p pairRec) (vs []engine.Violation, outcome string) {
 	mk := func(key, detail string) {
 		vs = append(vs, engine.Violation{Key: key, Witness: p.S1.String() + "  ||  " + p.S2.String(), Detail: detail + "\n--- uses variant: " + fmt.Sprint(uses) + "\n--- inline variant: " + fmt.Sprint(inl), Harness: "pair", Replay: engine.JSON(p)})
 	}
-	opts := gen.Options{Features: []string{"a:feat", "a2:feat"}}
+	opts := gen.Options{Features: []string{"a:feat", "a2:feat", "b:gfeat"}}
 	ru, ri := gen.Compile(uses, opts), gen.Compile(inl, opts)
 	cls := fmt.Sprintf("mods=%v+%v", p.S1.Mods, p.S2.Mods)
 	switch {
@@ -1019,7 +1041,7 @@ func stripMachines(d string) string {
 
 func augStructs() []AugStruct {
 	var out []AugStruct
-	for _, b := range bodyNames {
+	for _, b := range bodyNames[:8] { // (the iffeature body belongs to the grouping structures)
 		for _, cross := range []bool{false, true} {
 			for _, d := range []string{"", "when", "if-feature", "if-feature-off", "status"} {
 				for _, into := range []string{"container", "list", "choice"} {
